@@ -6,7 +6,7 @@ Driver for the `commit` correspondence family (C10).
 
 ```
 SCRIPT := <puller> <comp none|zstd> <fmt beve|raw> <open ok|err|cut> <verify ok|rej> <trailer N>
-          <dest old|none|dir|olds|nones> <stop -|N> <dec -|err|B> <fault -|N|sync> wire <resp>…
+          <dest old|none|dir|olds|nones|noparent|symparent> <stop -|N> <dec -|err|B> <fault -|N|sync> wire <resp>…
   puller := file | bevezst | beve | trailer | fileasync | verifiedasync | trailerasync
             (an async puller may carry the suffix `@ws`: driven over a WebSocketClient; same model)
   resp   := c:<B>:<0|1>  (chunk body, last flag) | e (error response) | x (connection cut)
@@ -25,6 +25,12 @@ trace <i> SCRIPT :: <sys>…        -> <i> trace <accept|reject@pos> <match|expe
                                                  failed rename, unlink of the temp file, D = dest touched)
 kill <i> <syscall>:<N> SCRIPT :: <same|L:FNV>   -> <i> kill <ok|BAD>   (destination observed after SIGKILL on
                                                   entry to the N-th such syscall on the two paths)
+sibling <i> <name H>              -> <i> temp <H>   (name of the temp sibling: `tempSibling Gen.Commit.tempSuffix`)
+nest <i> <nameA H> <nameB H> SCRIPT_A :: SCRIPT_B
+                                  -> <i> A ret .. dest .. tmp .. B ret .. dest .. tmp ..  | <i> alias
+                                     (pull B runs to its end inside pull A's verify, same directory; by
+                                     `pulls_do_not_interfere` each behaves as if alone unless one's destination
+                                     is the other's temp sibling)
 real <i> <reader|writer> <chunk N> <fail -|N> <depth N> <payload H> SCRIPT   -> as `script` (real `Server`,
                                                   producer failing after N bytes; SCRIPT = what the client saw)
 value <i> <sync|async> <comp> <fmt> <open> need <N> <dec> wire <resp>…  -> <i> ret <ok L:FNV|err>
@@ -86,13 +92,13 @@ def parseScript (ws : List String) : Option (Parsed × List String) :=
     match pullerOf (if pu.endsWith "@ws" then (pu.dropEnd 3).toString else pu), compOf co, allSome (wireWs.map respOf), decOf dc with
     | some p, some comp, some wire, some dec =>
       if (fm = "beve" ∨ fm = "raw") ∧ (op = "ok" ∨ op = "err" ∨ op = "cut") ∧ (ve = "ok" ∨ ve = "rej")
-          ∧ (de = "old" ∨ de = "none" ∨ de = "dir" ∨ de = "olds" ∨ de = "nones") ∧ tr.isNat ∧ (st = "-" ∨ st.isNat) ∧ (wf = "-" ∨ wf = "sync" ∨ wf.isNat) then
+          ∧ (de = "old" ∨ de = "none" ∨ de = "dir" ∨ de = "olds" ∨ de = "nones" ∨ de = "noparent" ∨ de = "symparent") ∧ tr.isNat ∧ (st = "-" ∨ st.isNat) ∧ (wf = "-" ∨ wf = "sync" ∨ wf.isNat) then
         let stop := if st = "-" then none else some (natOf st)
         if stop.isSome ∧ !p.usesWriteFile then none else
         some (⟨p, { openOk := op = "ok", comp := comp, beve := fm = "beve", wire := wire, stop := stop,
                     verifyOk := ve = "ok", trailer := natOf tr, renameOk := de ≠ "dir",
                     writeFault := if wf = "-" ∨ wf = "sync" then none else some (natOf wf),
-                    syncOk := wf ≠ "sync" },
+                    syncOk := wf ≠ "sync", createOk := de ≠ "noparent" },
                 ⟨fun _ => dec, fun _ => []⟩, de = "olds" ∨ de = "nones"⟩, after)
       else none
     | _, _, _, _ => none
@@ -178,6 +184,26 @@ def step (st : Unit) (ws : List String) : Unit × String :=
         (st, joinSp [idx, "trace", acc, if same then "match" else "expected:" ++ ",".intercalate (want.map showSys)])
       | none => (st, idx ++ " bad-op")
     | none => (st, idx ++ " bad-op")
+  | ["sibling", idx, nm] =>
+    match bytesOfHex nm with
+    | some b => (st, idx ++ " temp " ++ hexOfBytes (b ++ Gen.Commit.tempSuffix.toUTF8.toList))
+    | none => (st, idx ++ " bad-op")
+  | "nest" :: idx :: na :: nb :: rest =>
+    match bytesOfHex na, bytesOfHex nb, parseScript rest with
+    | some a, some b, some (qa, rest2) =>
+      match parseScript rest2 with
+      | some (qb, []) =>
+        let sfx := Gen.Commit.tempSuffix.toUTF8.toList
+        if a = b ∨ a ++ sfx = b ∨ b ++ sfx = a then (st, idx ++ " alias")
+        else
+          let short := fun (q : Parsed) =>
+            let r := runOf q
+            let fs := runOps ⟨some [0], none⟩ r.ops
+            joinSp ["ret", showRet r.ret, "dest", (if fs.dest = some [0] then "same" else match fs.dest with
+              | some c => digest c | none => "gone"), "tmp", if fs.tmp.isSome then "1" else "0"]
+          (st, joinSp [idx, "A", short qa, "B", short qb])
+      | _ => (st, idx ++ " bad-op")
+    | _, _, _ => (st, idx ++ " bad-op")
   | "real" :: idx :: _prod :: _chunk :: _fail :: _depth :: _payload :: rest =>
     -- a pull from the crate's own `Server`; the harness states the script the client saw
     match parseScript rest with
